@@ -47,7 +47,13 @@ def make_env(d, k, v, c):
     sh = {"walg": envgen.ALGS[k % 5], "wsup": "none", "seq": k, "pad": None, "mem": {}, "cid": [["first", "mid", "last"][k % 3], v, c],
           "version": None, "pay": [], "deps": [], "imgs": []}
     b = envgen.Builder(d / f"e{k}")
-    data = toolrun.create_lib(b.desc(sh, toolrun.create_lib))
+    desc = b.desc(sh, toolrun.create_lib)
+    if k % 4 == 1:   # a manifest that also lists ANOTHER installed manifest among its components (a root naming its dependency):
+        # the envelope's own class is the one of its manifest component id, wherever other identifiers of that form occur
+        common = desc["SUIT_Envelope_Tagged"]["suit-manifest"].setdefault("suit-common", {})
+        common.setdefault("suit-components", []).append(
+            ["INSTLD_MFST", {"RFC4122_UUID": {"namespace": "nordicsemi.com", "name": "nRF54H20_sample_rad" if c != "nRF54H20_sample_rad" else "other"}}])
+    data = toolrun.create_lib(desc)
     p = d / f"env{k}.suit"
     p.write_bytes(data)
     return p, data
